@@ -273,7 +273,8 @@ class RefInterp(Interp):
                 cs.extend(self.assign(stmt.target, v, c, out))
         for c in cs:
             for c1, ann in self.ev(stmt.annotation, c, out):
-                if isinstance(stmt.target, ast.Name):
+                if stmt.simple and isinstance(stmt.target, ast.Name):
+                    # (`(x): int = 1` has a Name target but is not "simple": evaluated, not recorded)
                     c1 = c1.emit(("annotate", stmt.target.id, ann))
                 out.add("normal", c1)
         return out
